@@ -1,0 +1,32 @@
+//go:build verif
+
+// Package verifhook re-exports, for an external verification harness, the
+// exported API of a few internal packages. It only exists under the verif
+// build tag and adds no code to any other package.
+package verifhook
+
+import (
+	"github.com/emmansun/gmsm/internal/sm9/bn256"
+)
+
+type (
+	G1           = bn256.G1
+	G2           = bn256.G2
+	GT           = bn256.GT
+	GTFieldTable = bn256.GTFieldTable
+)
+
+var (
+	Gen1                 = bn256.Gen1
+	Gen2                 = bn256.Gen2
+	BNOrder              = bn256.Order
+	Pair                 = bn256.Pair
+	Miller               = bn256.Miller
+	ScalarMultGT         = bn256.ScalarMultGT
+	ScalarBaseMultGT     = bn256.ScalarBaseMultGT
+	GenerateGTFieldTable = bn256.GenerateGTFieldTable
+	NormalizeScalar      = bn256.NormalizeScalar
+	RandomG1             = bn256.RandomG1
+	RandomG2             = bn256.RandomG2
+	RandomGT             = bn256.RandomGT
+)
